@@ -40,7 +40,9 @@ class Call(Expression):
         out += (STATUS, RESULT, POS) << Yield((CALL, func, POS))
 
 
-class KeywordArg:
+class KeywordArg(Expression):
+    # Keyword arguments are expressions so that "visit" reaches the argument
+    # expression (to assign ids, resolve references, etc).
     def __init__(self, name, expr):
         self.name = name
         self.expr = expr
